@@ -245,3 +245,16 @@ def rich_history(rng: random.Random, version: str | None, length: int) -> list[l
         else:
             steps.append(["rx", f"{rng.choice([1, 2])};255;0;0;17;2.0\n"])
     return steps
+
+
+REPLY_FAULTS = [[13], [6], [2], [13, 2], [20], [1], [6, 1, 13]]
+
+
+def with_reply_faults(rng: random.Random, case: dict) -> dict:
+    """A third of the rich cases get write faults on library-initiated replies (reboot, config, time, version query,
+    discover) - every 1st / 2nd / 3rd such write fails with one of the TransportError classes."""
+    if rng.random() < 0.35:
+        case["fail_reply_types"] = rng.choice(REPLY_FAULTS)
+        case["fail_reply_every"] = rng.choice([1, 1, 2, 3])
+        case["fault_class"] = rng.choice(["TransportFailedError", "TransportError", "HarnessTransportError"])
+    return case
